@@ -333,7 +333,7 @@ def run(tier, seed, replay=None):
     for whats, e, stream, idxs in pending:
         c = e['case']
         if len(c['invs']) == 1:
-            ck.violation('; '.join(sorted(set(whats))), c, stream=stream, extra={'impl': e['impl'], 'model': e['models']},
+            ck.violation('; '.join(sorted(set(whats))), c, stream=stream, extra={'broken_obligations': [o['name'] for o in ck.broken()], 'impl': e['impl'], 'model': e['models']},
                          matcher=matcher)
             continue
         for ii, f in e['inv_fails']:
@@ -368,11 +368,11 @@ def run(tier, seed, replay=None):
         if k in resolved:
             ce = resolved[k]
             ck.violation('; '.join(whats_of(ce)), ce['case'], stream=stream,
-                         extra={'impl': ce['impl'], 'model': ce['models'], 'original_batch_size': len(e['case']['invs'])},
+                         extra={'broken_obligations': [o['name'] for o in ck.broken()], 'impl': ce['impl'], 'model': ce['models'], 'original_batch_size': len(e['case']['invs'])},
                          matcher=matcher)
         else:
             ck.violation('; '.join(f) + (f' (invocation {ii} of the batch)' if ii is not None else ''), e['case'], stream=stream,
-                         extra={'impl': e['impl'], 'model': e['models'], 'needs_concurrency': True}, matcher=matcher)
+                         extra={'broken_obligations': [o['name'] for o in ck.broken()], 'impl': e['impl'], 'model': e['models'], 'needs_concurrency': True}, matcher=matcher)
     ck.violations.sort(key=lambda v: size_of(v['case']))
     if skipped:
         ck.notes.append(f'{skipped} cases skipped by workers after a hang had been observed')
